@@ -27,8 +27,13 @@ DEFAULT_FEATURES = dict(
     params=0.35, hooks=0.3, join=0.3, loops=0.5, conds=0.7, render=0.3, inputs=0.15,
     inline_cond=0.4, faults=0.15, glue=0.3, tags=0.2, comments=0.2, py_blocks=0.3,
     top_jumps=0.25, block_jumps=0.3, one_time=0.4, block_choices=0.5, fmt=0.4,
-    jump_mode_cycles=0.15, legacy=0.0, stmt_faults=0.08, shadow=0.3,
+    jump_mode_cycles=0.15, legacy=0.0, stmt_faults=0.08, shadow=0.3, shared_src=0.07,
 )
+
+
+def vn(pid):
+    """passage name as part of a variable name (dotted names are legal passage names)"""
+    return pid.replace(".", "_")
 
 
 class Gen:
@@ -42,13 +47,23 @@ class Gen:
         self.names = ["Start"] + [f"P{i}" for i in range(1, self.n)]
         if rng.random() < self.f.get("odd_names", 0) and self.n > 2:
             # legal passage names that look like something else: pieces of the reserved "@join", dotted names, a leading underscore
-            self.names[-1] = rng.choice(["join", "in", "jo", "o", "Scene.One", "_end", "oin"])
+            self.names[-1] = rng.choice(["join", "in", "jo", "o", "Scene.One", "_end", "oin", "Client.Aria.S1", "Client.Aria.S1", "Town.Inn"])
+            if self.names[-1] == "Client.Aria.S1" and self.n > 3 and rng.random() < 0.7:
+                self.names[-2] = "Client.Aria"          # the namespace's own hub next to the passage inside it
         self.hook_names = []
         self.params = {}     # passage -> [(name, default or None)]
         self.cycles = rng.random() < self.f["jump_mode_cycles"]
         self.stats = {}
+        self.pool = None
 
     # ------------------------------------------------------------------ helpers
+    def pooled(self, kind=None):
+        """source texts shared between roles: the SAME text is a statement (~ e), an interpolation ({e}) and a condition"""
+        if self.pool is None:
+            self.pool = {"int": self.int_expr(1), "bool": self.bool_expr(1), "str": self.str_expr(1), "len": "len(xs)"}
+        self.count("shared_src")
+        return self.pool[kind] if kind else self.pool[self.r.choice(sorted(self.pool))]
+
     def p(self, key):
         return self.r.random() < self.f.get(key, 0)
 
@@ -96,6 +111,8 @@ class Gen:
     def bool_expr(self, depth=0, ints=None):
         ints = ints or INT_VARS
         r = self.r
+        if depth == 0 and ints is INT_VARS and self.p("shared_src"):
+            return self.pooled("bool")
         k = r.randint(0, 9 if depth < 2 else 4)
         if k == 0:
             return r.choice(BOOL_VARS)
@@ -169,6 +186,8 @@ class Gen:
             if k == 6:
                 return ("ef", r.choice(STR_VARS), "d")      # ValueError marker
             return ("ef", r.choice(LIST_VARS), ">4")         # TypeError marker
+        if self.p("shared_src"):
+            return ("e", self.pooled())
         return ("e", self.any_expr(ints))
 
     def int_var_or_lit(self, ints=None):
@@ -199,6 +218,8 @@ class Gen:
                              "party[0]['hp'] = party[0]['hp'] + 2 if party else 0", "ys = xs", "d['lst'] = ys", "xs.append(3)",
                              "t = str(party[0]['hp']) if party else 'none'", "s = str(nest['inner']) + str(ys) + str(hero)",
                              "ys = list(ys)"])
+        if self.p("shared_src"):
+            return self.pooled()          # an expression statement whose text is also displayed / tested elsewhere
         if r.random() < self.f.get("retype", 0.06):
             # rebinding a name to an EQUAL value of another type (True -> 1): what is shown afterwards is the new value
             v = r.choice(BOOL_VARS)
@@ -435,21 +456,21 @@ class Gen:
                 f"ws = [{', '.join(repr(self.word()) for _ in range(r.randint(0, 2)))}]",
                 f"d = {{'k': {r.randint(0, 5)}, 'm': {r.randint(0, 5)}}}", "hlog = []", "z = None",
                 f"nest = {{'inner': [{r.randint(0, 5)}], 'k': {r.randint(0, 5)}, 'deep': {{'l': []}}}}"]]
-            items += [{"k": "stmt", "code": f"n_{n} = 0", "comment": None} for n in self.names + self.hook_names]
+            items += [{"k": "stmt", "code": f"n_{vn(n)} = 0", "comment": None} for n in self.names + self.hook_names]
             if self.f.get("alias", 0) > 0:
                 for code, pr in (("ys = xs", 0.6), ("nest['inner'] = xs", 0.5), ("hero = {'hp': 7}", 1.0), ("party = [hero]", 0.8), ("d['lst'] = ys", 0.4)):
                     if r.random() < pr:
                         items.append({"k": "stmt", "code": code, "comment": None})
-        items.append({"k": "stmt", "code": f"n_{name} = n_{name} + 1", "comment": None})
+        items.append({"k": "stmt", "code": f"n_{vn(name)} = n_{vn(name)} + 1", "comment": None})
         if idx == 0 and self.hook_names and self.p("hook_early"):
             items.append({"k": "hook", "add": True, "target": self.hook_names[0]})      # a hook is active from the first turn on
         if r.random() < self.f.get("probes", 0.5):
             # probe: what the passage sees as its parameter scope on entry
-            items.append({"k": "stmt", "code": f"lk_{name} = dict(_local)", "comment": None})
+            items.append({"k": "stmt", "code": f"lk_{vn(name)} = dict(_local)", "comment": None})
         if r.random() < self.f.get("markers", 0.6):
             items.append({"k": "line", "parts": [("t", f"={name}=")], "glue": False, "tags": [], "comment": None})
         if params and r.random() < self.f.get("probes", 0.5):
-            items.append({"k": "render", "name": f"pr_{name}", "args": ", ".join(p for p, _ in params)})
+            items.append({"k": "render", "name": f"pr_{vn(name)}", "args": ", ".join(p for p, _ in params)})
         saved_sf = self.f["stmt_faults"]
         if idx == 0:
             self.f["stmt_faults"] = saved_sf / 8
@@ -542,13 +563,13 @@ class Gen:
 
     def hook_passage(self, name):
         r = self.r
-        items = [{"k": "stmt", "code": f"n_{name} = n_{name} + 1", "comment": None},
+        items = [{"k": "stmt", "code": f"n_{vn(name)} = n_{vn(name)} + 1", "comment": None},
                  {"k": "stmt", "code": f"hlog.append('{name}')", "comment": None},
-                 {"k": "stmt", "code": f"lk_{name} = dict(_local)", "comment": None}]
+                 {"k": "stmt", "code": f"lk_{vn(name)} = dict(_local)", "comment": None}]
         if r.random() < 0.7:
-            items.append({"k": "line", "parts": [("t", f"[{name} "), ("e", f"n_{name}"), ("t", "]")], "glue": False, "tags": [], "comment": None})
+            items.append({"k": "line", "parts": [("t", f"[{name} "), ("e", f"n_{vn(name)}"), ("t", "]")], "glue": False, "tags": [], "comment": None})
         if r.random() < 0.25:
-            items.append({"k": "if", "branches": [(f"n_{name} > {r.randint(1, 3)}", [{"k": "hook", "add": False, "target": name}])]})
+            items.append({"k": "if", "branches": [(f"n_{vn(name)} > {r.randint(1, 3)}", [{"k": "hook", "add": False, "target": name}])]})
         if r.random() < 0.2 and len(self.hook_names) > 1:
             other = r.choice([h for h in self.hook_names if h != name])
             items.append({"k": "hook", "add": r.random() < 0.5, "target": other})
@@ -561,7 +582,7 @@ class Gen:
         if self.p("hooks"):
             self.hook_names = [f"H{i}" for i in range(1, r.randint(2, 3) + 1)]
         for n in self.names[1:]:
-            if self.p("params"):
+            if self.p("params") or ("." in n and self.f.get("params", 0) > 0 and r.random() < 0.6):
                 k = r.randint(1, 3 if self.p("long_params") else 2)
                 ps = []
                 pool = ["p", "q", "r2"] + (["a"] if self.p("shadow") else [])
